@@ -291,3 +291,46 @@ Example C11_copy_of_shared_lists_can_differ :
   exists h' r', pickle_copy qp_simple qp_dec_simple 40 h (RLoc 0) = HOk (h', r') /\
                 enc_text h' r' <> enc_text h (RLoc 0).
 Proof. do 2 eexists. split; [vm_compute; reflexivity|]. vm_compute. discriminate. Qed.
+
+(** ---- non-vacuity, the two theorems whose premises no example above meets literally (wp-audit) ---- *)
+(** C11_encode_reads_reachable_only: two DIFFERENT heaps that agree on everything reachable from D = location 2
+    (the list L and the recording dict are replaced): same encoding of D, different encoding of L *)
+Example C11_encode_reads_reachable_only_nonvacuous :
+  let h2 := [NDict []; NList [RAtom (AInt 8)]; NDict [(U"total", RAtom (AInt 3))]; NTuple []] in
+  (forall l, reach ex_h (RLoc 2) l -> nth_error ex_h l = nth_error h2 l) /\
+  ex_h <> h2 /\ enc_text h2 (RLoc 1) <> enc_text ex_h (RLoc 1) /\
+  enc_text h2 (RLoc 2) = enc_text ex_h (RLoc 2) /\ enc_text ex_h (RLoc 2) <> None.
+Proof.
+  cbv zeta. split.
+  - intros l R. inversion R as [|l0 nd c l' E I R']; subst; [reflexivity|].
+    cbn in E. injection E as <-. cbn in I. destruct I as [<-|[]]. inversion R'.
+  - split; [discriminate|]. split; [vm_compute; discriminate|]. split; vm_compute; [reflexivity|discriminate].
+Qed.
+
+(** C11_copy_on_immune_to_service: all five premises, the service's later actions given as [client_steps] over its
+    own region (everything but the recording dict, the copy and the wrapper): it appends to the list it received
+    and allocates a new object referring to it *)
+Example C11_copy_on_immune_to_service_nonvacuous :
+  exists h1 r' h2 h'',
+    0 < length ex_h /\
+    closed_set (fun l => l <> 0 /\ l < length ex_h) ex_h /\
+    pickle_copy qp_simple qp_dec_simple 40 ex_h (RLoc 1) = HOk (h1, r') /\
+    record_value qp_simple qp_dec_simple true 40 ex_h 0 (U"input: load") (RLoc 1) = HOk h2 /\
+    client_steps (fun l => l <> 0 /\ ~ inr (length ex_h) (S (length h1)) l) h2 h'' /\
+    h'' <> h2 /\ enc_text h'' (RLoc 1) <> enc_text h2 (RLoc 1) /\ enc_text h'' r' = enc_text h2 r'.
+Proof.
+  destruct C11_example_copy_on as (h1 & r' & h2 & Pc & Rv & Cl & _).
+  vm_compute in Pc. injection Pc as <- <-. vm_compute in Rv. injection Rv as <-.
+  do 4 eexists. split; [cbn; lia|]. split; [exact Cl|]. split; [vm_compute; reflexivity|]. split; [vm_compute; reflexivity|].
+  split.
+  - eapply cs_cons.
+    { eapply (cs_mutate _ _ (MListAppend 1 (RAtom (AInt 9)))); [vm_compute; reflexivity| |].
+      - cbn. unfold inr. lia.
+      - intros v E. injection E as <-. exact I. }
+    eapply cs_cons.
+    { eapply (cs_alloc _ _ (NList [RLoc 1])).
+      - cbn. unfold inr. lia.
+      - repeat constructor; cbn; unfold inr; lia. }
+    apply cs_nil.
+  - split; [vm_compute; discriminate|]. split; vm_compute; [discriminate|reflexivity].
+Qed.
